@@ -1,9 +1,5 @@
 package ipmi
 
-import (
-	"github.com/google/gopacket"
-)
-
 // refAlgPayload is the 8-byte algorithm payload of 13.17: type, reserved x2, length 8,
 // algorithm in bits 5:0, reserved x3; a wildcard has length 0 and no algorithm.
 func refAlgPayload(typ byte, wildcard bool, alg byte) []byte {
@@ -20,7 +16,7 @@ func refAlgPayload(typ byte, wildcard bool, alg byte) []byte {
 // username length byte and bytes, and a key exchange authentication code only when the
 // status is zero. A username longer than 16 bytes is an error.
 func VerifC06_SetupPayloads() {
-	buf := gopacket.NewSerializeBuffer()
+	buf := vBuffer()
 	switch vChoice(3) {
 	case 0:
 		o := &OpenSessionReq{Tag: vByte(), MaxPrivilegeLevel: PrivilegeLevel(vByte() & 0x0f), SessionID: vU32()}
